@@ -773,7 +773,7 @@ theorem flatMap_bin16_length (regs : List Nat) : (regs.flatMap bin16).length = 1
       List.length_nil]; omega
 
 theorem fromCoils_bin16 (regs : List Nat) (h : ∀ r ∈ regs, r < 65536) (bo wo : Endian) :
-    Decoder.fromCoils (regs.flatMap bin16) bo wo = ⟨regs.flatMap regBytes, 0, bo, .big⟩ := by
+    Decoder.fromCoils (regs.flatMap bin16) bo wo = ⟨regs.flatMap regBytes, 0, bo, wo⟩ := by
   have hl := flatMap_bin16_length regs
   have h0 : (regs.flatMap bin16).length % 8 = 0 := by omega
   have hm : ((regs.flatMap bin16).length + 7) / 8 = 2 * regs.length := by omega
@@ -789,12 +789,11 @@ theorem flatMap_regBytes_eq (regs : List Nat) (h : ∀ r ∈ regs, r < 65536) :
     have e : r / 256 % 256 = r / 256 := by omega
     simp only [List.flatMap_cons, ih (fun x hx => h x (by simp [hx])), regBytes, beBytes_two, e]
 
-/-- `fromCoils(to_coils())` carries the byte string (zero-padded to even length) — but the decoder
-    it returns has word order Big whatever was asked for -/
+/-- `fromCoils(to_coils())` carries the byte string (zero-padded to even length) and the orders asked for -/
 theorem fromCoils_toCoils (bo wo : Endian) (payload : List Bytes) (h : Bytes.WF (toString payload)) :
     ∃ coils, toCoils bo false payload = .ok coils ∧
       Decoder.fromCoils coils bo wo =
-        ⟨toString payload ++ List.replicate ((toString payload).length % 2) 0, 0, bo, .big⟩ := by
+        ⟨toString payload ++ List.replicate ((toString payload).length % 2) 0, 0, bo, wo⟩ := by
   refine ⟨(pairRegs (toString payload)).flatMap bin16, ?_, ?_⟩
   · simp only [toCoils, toRegisters_eq, bind, Except.bind, pure, Except.pure]
   · have hlt := pairRegs_lt _ h
